@@ -38,9 +38,10 @@ def compose(S, lo, hi):
 
 
 class Describer:
-    def __init__(self, facts, body, rets=None, ctx=None, ret_slices=None):
+    def __init__(self, facts, body, rets=None, ctx=None, ret_slices=None, ret_values=None):
         self.f = facts
         self.b = body
+        self.ret_values = ret_values   # callable (fn id, field path) -> value descriptor at that path of a local fn's result
         self.ret_slices = ret_slices   # callable (fn id, field path) -> slice descriptor a local fn returns (callee terms)
         self.fn = body.fn
         self.ev = FnEval(facts, body, ctx)   # ctx: success-implies-length summaries (length guards made by helpers)
@@ -194,9 +195,10 @@ class Describer:
             return None
         return a[0], a[1], c[1]
 
-    def call_result_slice(self, pl, depth):
-        """slice held in a component of a local function's result: `(split(sig) as Some).0.1`, `split(sig).0` ..."""
-        if self.ret_slices is None:
+    def call_result_slice(self, pl, depth, want_value=False):
+        """slice held in a component of a local function's result: `(split(sig) as Some).0.1`, `split(sig).0` ...
+        (want_value: an integer component instead, `(header(sig) as Some).0.0`)"""
+        if (self.ret_values if want_value else self.ret_slices) is None:
             return None
         root = pl[0]
         path = []
@@ -237,10 +239,56 @@ class Describer:
         t = d[3]
         if not t[1].get("l"):
             return None
+        if want_value:
+            V = self.ret_values(t[1]["id"], tuple(path)) if self.ret_values is not None else None
+            if V is None:
+                return None
+            return self.subst_value(V, t[2], depth)
         S = self.ret_slices(t[1]["id"], tuple(path))
         if S is None:
             return None
         return self.subst_slice(S, t[2], depth)
+
+    def returned_value(self, path):
+        """like returned_slice, for an integer held at `path` of the result (`Some((q, ty))`)"""
+        found = None
+        for d in self.b.defs().get(0, []):
+            if d[2] != "A":
+                continue
+            rv = d[3][2]
+            p = list(path)
+            if rv[0] == "agg" and rv[1].get("k") == "adt" and p and p[0][0] == "v":
+                if rv[1].get("variant") != p[0][1]:
+                    continue
+                p = p[1:]
+                if not p or p[0] != ("f", 0) or not rv[2]:
+                    continue
+                p = p[1:]
+                op = rv[2][0]
+            elif rv[0] == "use":
+                op = rv[1]
+            else:
+                continue
+            V = self._value_at(op, p, 0)
+            if V is None:
+                return None
+            if found is not None and found != V:
+                return None
+            found = V
+        return found
+
+    def _value_at(self, op, p, depth):
+        if depth > 8 or op[0] not in ("cp", "mv"):
+            return self.value_of(op) if not p else None
+        if not p:
+            return self.value_of(op, depth + 1)
+        if len(op[1]) != 1:
+            return None
+        if p[0][0] == "f":
+            d = self.b.single_def(op[1][0])
+            if d and d[2] == "A" and d[3][2][0] == "agg" and p[0][1] < len(d[3][2][2]):
+                return self._value_at(d[3][2][2][p[0][1]], p[1:], depth + 1)
+        return None
 
     def returned_slice(self, path):
         """descriptor (own parameter terms) of the slice this function returns at `path` of its result, when every
@@ -363,6 +411,10 @@ class Describer:
             if td.get("k") in ("ref", "ptr") and self.f.ty(td["to"]).get("k") in ("uint", "int", "bool"):
                 return ("pv", pl[0])
             return None
+        if len(pl) >= 2 and all(isinstance(e, list) and e[0] in ("d", "f") for e in pl[1:]) and self.ret_values is not None:
+            r = self.call_result_slice(pl, depth + 1, want_value=True)
+            if r is not None:
+                return r
         if len(pl) != 1:
             return None
         l = pl[0]
@@ -385,7 +437,8 @@ class Describer:
             if rv[0] == "use":
                 o = rv[1]
                 if o[0] in ("cp", "mv") and len(o[1]) == 3 and isinstance(o[1][1], list) and o[1][1][0] == "d":
-                    return ("i",)
+                    r = self.value_of(o, depth + 1)
+                    return r if r is not None else ("i",)
                 return self.value_of(o, depth + 1)
             if rv[0] == "cast" and rv[1] == "IntToInt":
                 return self.value_of(rv[2], depth + 1)
